@@ -39,7 +39,8 @@ ASSUMPTIONS = [
 ]
 PROBES = ("waiter_found_item_after_lock", "item_fetched_while_sibling_waits", "cancel_inside_source",
           "cancel_at_lock_wait", "cancel_between_items", "child_closed_early", "child_abandoned",
-          "lock_contended", "no_lock", "all_children_exhausted", "cancelled_child_left_unclosed")
+          "lock_contended", "no_lock", "all_children_exhausted", "cancelled_child_left_unclosed",
+          "dropped_children_finalised_by_loop")
 
 
 class Prog:
@@ -277,6 +278,16 @@ def execute(st_, ctx):
         for t in tasks:
             if t.error is not None and not (t.cancelled_with is not None and t.error is t.cancelled_with):
                 out.violate("C09.task_failed", (sig_lock, type(t.error).__name__), dict(describe(), error=repr(t.error)))
+    # ---- at last everything is simply dropped (handle, children, suspended generators): whatever cleans up then
+    # still has to go through the loop - finalisers run as tasks of the simulator, and every token a user awaitable
+    # yields must arrive there (checked by the loop protocol in finish_outcome)
+    if sc.backend != "aio" and not (sim.capped or sim.deadlock):
+        handle = None
+        tasks_done = [t.done for t in tasks]
+        del st.src
+        run_sim(sim)
+        if getattr(sim, "n_finalizers", 0):
+            out.probes["dropped_children_finalised_by_loop"] = 1
     # probes / reach
     if lock is not None:
         # a waiter acquired the lock and released it without pulling: it found the item in its buffer
